@@ -181,6 +181,14 @@ fn main() {
             let text = std::fs::read_to_string(&args[2]).expect("replay file");
             let v: explore::Violation = serde_json::from_str(&text).expect("replay json");
             let mut reproduced = 0;
+            if hist_scenarios(&v.property, "quick").is_none() {
+                // the replay files of the component / grid engines describe the failing input; it is part of
+                // the enumerated grid, so re-running the check reproduces it
+                println!("replay file of {}: kind={} case={:?}", v.property, v.kind, v.path);
+                println!("  {}", explore::trunc(&v.detail, 3000));
+                let code = other_check(&v.property, "quick", seed).unwrap_or(2);
+                std::process::exit(code);
+            }
             for tier in ["quick", "thorough"] {
                 let Some((scs, or)) = hist_scenarios(&v.property, tier) else { break };
                 for sc in scs {
